@@ -1165,7 +1165,13 @@ def direct_aggs(body, op, adt_prefix, depth=0, seen=None):
 
 # ------------------------------------------------------------------ FORM: value forms and returned-value classification
 
+CANON_TRY = False     # set by the fingerprint engine: `x?` and the explicit `match x { Ok(v) => v, Err(e) => return Err(e) }` get one form
+_TRY_FLD = {"fld:Continue.0": "fld:ok.0", "fld:Ok.0": "fld:ok.0", "fld:Some.0": "fld:ok.0", "fld:Break.0": "fld:err.0", "fld:Err.0": "fld:err.0"}
+
+
 def _short_leaf(x):
+    if CANON_TRY and x in _TRY_FLD:
+        return _TRY_FLD[x]
     if x.startswith("leaf:call:"):
         p = re.sub(r"<[^<>]*>", "", re.sub(r"<[^<>]*>", "", x[10:]))
         return "call:" + "::".join(p.split("::")[-2:])
@@ -1236,7 +1242,10 @@ def ret_labels(body, start, local=0):
         t = blk["t"]
         if t.get("k") == "call" and t.get("dest") and t["dest"][0] == local and not t["dest"][1]:
             c = [x for x in body.calls if x.bb == bb][0]
-            out.add(("call:" + "::".join(re.sub(r"<[^<>]*>", "", c.callee).split("::")[-2:]),) + tuple(form(body, a) for a in c.args))
+            nm = "call:" + "::".join(re.sub(r"<[^<>]*>", "", c.callee).split("::")[-2:])
+            if CANON_TRY and nm == "call:FromResidual::from_residual":
+                nm = "agg:Result::Err"        # `return Err(e.into())` written as `?`
+            out.add((nm,) + tuple(form(body, a) for a in c.args))
             continue
         if t.get("k") == "return":
             out.add("<unset>")
@@ -1335,9 +1344,29 @@ def decision_sites(body, local=0, ignore=None, matches=False):
                     continue
                 rv = d[3]
                 adt = str(rv.get("adt"))
-                if adt.endswith("ops::control_flow::ControlFlow"):
-                    continue
                 names = {v[0]: v[1] for v in rv.get("vars", [])}
+                if adt.endswith("ops::control_flow::ControlFlow"):
+                    if not CANON_TRY or rv["p"][1]:
+                        continue
+                    # `x?`: the same decision as `match x { Err(e) => return Err(e.into()), Ok(v) => v }` (None / Some for an Option)
+                    tb = [dd[2] for dd in body.defs().get(rv["p"][0], []) if dd[0] == "call" and re.search(r"Try::branch$", dd[2].callee)]
+                    if len(tb) != 1 or not tb[0].args:
+                        continue
+                    selfty = str((tb[0].ga or [""])[0])
+                    kind = "Option::None" if re.match(r"^(core::option::|std::option::)?Option<", selfty) else "Result::Err"
+                    arms = {names.get(val, val): tgt for val, tgt in t["vals"]}
+                    if t.get("else") is not None and len(arms) == 1 and not _is_unreachable(body, t["else"]):
+                        arms["Break" if "Continue" in arms else "Continue"] = t["else"]
+                    if "Break" not in arms or "Continue" not in arms:
+                        continue
+                    scrut = form(body, tb[0].args[0])
+                    if skip(scrut):
+                        continue
+                    site = _BoolSite(body, i, t["d"]["p"][0], d[4] if len(d) > 4 and isinstance(d[4], int) else (t.get("line") or body.line))
+                    site.arm_target = arms["Break"]
+                    site.other_targets = [arms["Continue"]]
+                    out.append((("match", (kind,), scrut, frozenset(ret_labels(body, arms["Break"], local)), frozenset(ret_labels(body, arms["Continue"], local))), site))
+                    continue
                 scrut = form(body, {"p": rv["p"]})
                 if skip(scrut):
                     continue
@@ -1356,6 +1385,10 @@ def decision_sites(body, local=0, ignore=None, matches=False):
                     site.other_targets = [t2 for _, t2 in targets if t2 != tgt]
                     out.append((("match", (adt.split("::")[-1] + "::" + nm,), scrut, frozenset(ret_labels(body, tgt, local)), frozenset(others)), site))
     return out
+
+
+def _is_unreachable(body, bb):
+    return body.blocks[bb]["t"].get("k") == "unreachable"
 
 
 def decision_table(R, key, body, expect, what="", local=0, ignore=None, matches=False):
